@@ -742,7 +742,7 @@ class GrammarEval:
         """A grammar-building helper defined in a definition module: its body is evaluated with the arguments bound (straight-line code, loops over
         literal sequences, comprehensions, one return value)."""
         fn = f.action.node
-        if not isinstance(fn, ast.FunctionDef) or fn.args.vararg or fn.args.kwarg:
+        if not isinstance(fn, ast.FunctionDef) or fn.args.kwarg:
             raise Unrecognised(f'grammar built by calling `{norm(e.func)}`, which this evaluator cannot follow', e)
         self._call_depth = getattr(self, '_call_depth', 0) + 1
         try:
@@ -753,7 +753,7 @@ class GrammarEval:
             fenv['$in_function'] = True
             params = [a.arg for a in fn.args.args]
             defaults = dict(zip(params[len(params) - len(fn.args.defaults):], fn.args.defaults))
-            if any(isinstance(a, ast.Starred) for a in e.args) or any(k.arg is None for k in e.keywords) or len(e.args) > len(params):
+            if any(isinstance(a, ast.Starred) for a in e.args) or any(k.arg is None for k in e.keywords) or (len(e.args) > len(params) and not fn.args.vararg):
                 raise Unrecognised(f'call `{norm(e)[:60]}` with star-arguments', e)
             bound = {}
             if f.action.kind == 'method' and isinstance(e.func, ast.Attribute) and params:
@@ -765,6 +765,9 @@ class GrammarEval:
                 fenv['$self'] = env.get('$self', {})
             for p_, a in zip(params, e.args):
                 bound[p_] = self.ev(a, env, mod, cfg)
+            if fn.args.vararg:
+                # def helper(*elements): the surplus positional arguments, as a tuple
+                bound[fn.args.vararg.arg] = tuple(self.ev(a, env, mod, cfg) for a in e.args[len(params):])
             for k in e.keywords:
                 bound[k.arg] = self.ev(k.value, env, mod, cfg)
             for p_ in params:
